@@ -37,6 +37,7 @@ fn main() {
         "adrop" => live::adrop(seed, n, &mut *out),
         "aged" => live::aged(seed, n, &mut *out),
         "cflush" => live::cflush(seed, n, &mut *out),
+        "unwind" => live::unwind(seed, n, &mut *out),
         "sys" => match arg(&args, "--replay") {
             Some(p) => sys::replay(p, &mut *out),
             None => sys::generate(seed, arg(&args, "--first").and_then(|s| s.parse().ok()).unwrap_or(0), n, arg(&args, "--profile").unwrap_or("mixed"), &mut *out),
